@@ -473,6 +473,19 @@ def corpus():
             hist = gen_history(random.Random(0), d, intensity=0.0)  # the other modules: their final connections, nothing else
             hist["Top"] = {"pre": ops[:cut], "post": ops[cut:]}
             out.append({"design": d, "style": "proc", "history": hist})
+    # references to ports which are themselves on signals, used only as members of an anonymous bundle / a dict (such a use
+    # leaves no back-reference on the port reference), by every connecting form, before and after the ports got their signals
+    for form in ("dict", "connect", "setattr", "call"):
+        members = {"k": "anon", "fields": [["x", P("r0", "p")], ["y", P("r0", "n")]]}
+        top = {"name": "Top", "sigs": [sg("s1", 1), sg("s2", 1), sg("s3", 1), sg("s4", 1)], "bundles": [],
+               "insts": [{"n": "r0", "of": copy.deepcopy(R), "conns": [["p", S("s1")], ["n", S("s2")]]},
+                         {"n": "i", "of": {"k": "module", "name": "Inner"}, "conns": [["b1", copy.deepcopy(members)], ["b2", copy.deepcopy(fresh)]]}]}
+        d = {"bundles": [bdef], "top": "Top", "modules": [inner, top]}
+        for ops in ([con("r0", "p", S("s1")), con("r0", "n", S("s2")), con("i", "b2", copy.deepcopy(fresh)), con("i", "b1", copy.deepcopy(members), form)],
+                    [con("i", "b1", copy.deepcopy(members), form), con("i", "b2", copy.deepcopy(fresh)), con("r0", "p", S("s3")), con("r0", "n", S("s2")), con("r0", "p", S("s1"), "setattr")]):
+            hist = gen_history(random.Random(0), d, intensity=0.0)
+            hist["Top"] = {"pre": ops[:2], "post": ops[2:]}
+            out.append({"design": d, "style": "proc", "history": hist})
     # a chain i3.b -> i2.b -> i1.b, its middle re-connected after the outer reference was taken
     insts = [{"n": "i1", "of": E1, "conns": [["a", S("aa")], ["b", S("x")]]}, {"n": "i2", "of": E1, "conns": [["a", S("aa")], ["b", S("y")]]},
              {"n": "i3", "of": E1, "conns": [["a", S("aa")], ["b", P("i2", "b")]]}]
